@@ -605,6 +605,9 @@ func (m *Module) OnBeginBlock(w *engine.World, ph *engine.Phase) {
 	}
 	if len(due) >= 2 {
 		w.Hit("htlc.multi_expiry_height")
+		if len(due) > 100 {
+			w.Hit("htlc.over_100_due_in_one_block")
+		}
 	}
 	if len(w.Mods) == 1 {
 		// alone on the chain: the whole begin-block sheet is the refunds, nothing else
